@@ -26,7 +26,10 @@ func (q *syntaxBasicCompareQuery) compute(
 	// leftFound == false && rightFound == false
 	if leftFound == rightFound {
 		if _, ok := q.comparator.(*syntaxCompareDeepEQ); ok {
-			return currentList
+			// Every member matches. Report it as a whole-match verdict:
+			// handing out currentList would let the logical operators
+			// blank the members (and, for arrays, the caller's document).
+			return fullList
 		}
 	}
 
